@@ -41,6 +41,9 @@ from vlib import shipped
 from pgradd.GroupAdd.Library import GroupLibrary
 import pgradd.ThermoChem
 import pgradd.GroupAdd.DataDir as DD
+if os.environ.get('VERIF_SET_DATA_DIR_LATE'):
+    # the override set by the program itself, after the package was imported and before the first load
+    os.environ['pgradd_DATA_DIR'] = os.environ['VERIF_SET_DATA_DIR_LATE']
 out = {}
 for item in json.loads(sys.argv[1]):
     name, arg = item[0], item[1]
@@ -92,6 +95,8 @@ def locations():
         _loc['relocated-relative'] = run_worker([[L, L] for L in shipped.LIBS],
                                                 {'pgradd_DATA_DIR': os.path.join('elsewhere', 'data copy')}, cwd=tmp)
         _loc['relocated-relative']['__expected_dir__'] = os.path.realpath(dst)
+        _loc['relocated-set-after-import'] = run_worker([[L, L] for L in shipped.LIBS], {'VERIF_SET_DATA_DIR_LATE': dst}, cwd=HERE)
+        _loc['relocated-set-after-import']['__expected_dir__'] = os.path.realpath(dst)
         # each library's directory ALONE somewhere else (a library is the directory that carries its name), by explicit path
         alone = os.path.join(tmp, 'alone')
         for L in shipped.LIBS:
@@ -117,7 +122,7 @@ def locations():
 
 def enum_cases(tier):
     for L in shipped.LIBS:
-        for way in ('by-path', 'relocated-absolute', 'relocated-relative', 'alone-by-path', 'relative-path-from-its-directory', 'edited-copy-by-path'):
+        for way in ('by-path', 'relocated-absolute', 'relocated-relative', 'relocated-set-after-import', 'alone-by-path', 'relative-path-from-its-directory', 'edited-copy-by-path'):
             yield dict(kind='location', lib=L, way=way)
         for k in shipped.group_names(L):
             yield dict(kind='group', lib=L, group=k)
